@@ -44,6 +44,8 @@ type scanResult struct {
 	Funcs      []string    `json:"funcs"`
 	Consts     [][3]string `json:"consts"` // name, type, value
 	Vars       []string    `json:"vars"`
+	Bodies     map[string]string `json:"bodies"` // "recv.name" -> printed body
+	VarValues  map[string]string `json:"var_values"`
 }
 
 func exprString(fset *token.FileSet, e ast.Expr) string {
@@ -65,7 +67,7 @@ func runScan(dec *json.Decoder, enc *json.Encoder) {
 		}
 
 		res := scanResult{ID: c.ID, Imports: [][2]string{}, Types: []scanType{}, Methods: [][2]string{},
-			Funcs: []string{}, Consts: [][3]string{}, Vars: []string{}}
+			Funcs: []string{}, Consts: [][3]string{}, Vars: []string{}, Bodies: map[string]string{}, VarValues: map[string]string{}}
 
 		fset := token.NewFileSet()
 
@@ -98,6 +100,11 @@ func runScan(dec *json.Decoder, enc *json.Encoder) {
 			case *ast.FuncDecl:
 				if d.Recv != nil && len(d.Recv.List) == 1 {
 					res.Methods = append(res.Methods, [2]string{exprString(fset, d.Recv.List[0].Type), d.Name.Name})
+					if d.Body != nil {
+						var bb bytes.Buffer
+						_ = printer.Fprint(&bb, fset, d.Body)
+						res.Bodies[exprString(fset, d.Recv.List[0].Type)+"."+d.Name.Name] = bb.String()
+					}
 				} else {
 					res.Funcs = append(res.Funcs, d.Name.Name)
 				}
@@ -146,6 +153,9 @@ func runScan(dec *json.Decoder, enc *json.Encoder) {
 								res.Consts = append(res.Consts, [3]string{n.Name, ty, val})
 							} else {
 								res.Vars = append(res.Vars, n.Name)
+								if i < len(s.Values) {
+									res.VarValues[n.Name] = exprString(fset, s.Values[i])
+								}
 							}
 						}
 					}
